@@ -9,13 +9,19 @@ import os
 
 
 class DetRandom:
-    def __init__(self, label="seam"):
+    def __init__(self, label="seam", preset=()):
         self.label = label.encode()
         self.counter = 0
         self.log = []  # (nbytes, data)
         self._real = None
+        self.preset = list(preset)   # values returned first (when their length matches the request)
 
     def __call__(self, n):
+        if self.preset and len(self.preset[0]) == n:
+            data = self.preset.pop(0)
+            self.counter += 1
+            self.log.append((n, data))
+            return data
         out = b""
         while len(out) < n:
             out += hashlib.sha256(b"%s|%d|%d" % (self.label, self.counter, len(out))).digest()
